@@ -165,7 +165,7 @@ fn exhaustive(_t: Tier) -> Box<dyn Iterator<Item = Case>> {
 /// Pairs of 1..=6 components from a six-name pool, every separator (the leading one too) drawn
 /// independently; half of the pairs are built around a shared prefix of 1..=3 components.
 fn random(_t: Tier) -> BoxedStrategy<Case> {
-    let name = || select(vec!["a", "b", "c", "d", "x.js", "y.map", "ab", "a.js", "x", "x.j", "A", "X.JS", "é", "e\u{301}", "a."]);
+    let name = || select(vec!["a", "b", "c", "d", "x.js", "y.map", "ab", "a.js", "x", "x.j", "A", "X.JS", "é", "e\u{301}", "a.", "可是呢", "抽屜", "į", "Ŝx", "是"]);
     let independent = (vec(name(), 1..=6), vec(name(), 1..=6));
     let related = (vec(name(), 1..=3), vec(name(), 0..=5), vec(name(), 0..=3)).prop_map(|(shared, b, t)| {
         let mut base = [shared.clone(), b].concat();
